@@ -1,7 +1,7 @@
 """C06 - nothing downstream of a failed call runs; the raised error names a real failure.
 
 E1 over fault patterns: every non-empty subset of nodes raises (Exception,
-custom BaseException, SystemExit assigned round-robin so that every kind occurs
+custom BaseException, SystemExit, an Exception that is itself a uberjob.CallError - assigned round-robin so that every kind occurs
 at every position), max_errors in {0, 1, None}, 1-3 workers, all queue kinds.
 """
 import itertools
@@ -10,13 +10,13 @@ from .. import e1prop, engine, planh
 from ..e1prop import ENGINE, PLAN, with_
 
 PROP = "C06"
-KINDS = ("exc", "base", "sysexit")
+KINDS = ("exc", "base", "sysexit", "callerror")
 
 
 def fail_patterns(n, rot=0, max_size=None):
     for r in range(1, (max_size or n) + 1):
         for sub in itertools.combinations(range(n), r):
-            yield {str(i): KINDS[(k + rot + r) % 3] for k, i in enumerate(sub)}
+            yield {str(i): KINDS[(k + rot + r) % len(KINDS)] for k, i in enumerate(sub)}
 
 
 def engine_fail_cfgs(ns, Ws, scheds, max_errors=(0, 1, None), variants=False, only_multi=False, **kw):
@@ -28,7 +28,7 @@ def engine_fail_cfgs(ns, Ws, scheds, max_errors=(0, 1, None), variants=False, on
             for me in max_errors:
                 rot += 1
                 d = dict(c)
-                d["fail"] = {k: KINDS[(KINDS.index(v) + rot) % 3] for k, v in fp.items()}
+                d["fail"] = {k: KINDS[(KINDS.index(v) + rot) % len(KINDS)] for k, v in fp.items()}
                 d["max_errors"] = me
                 yield d
 
@@ -41,7 +41,7 @@ def api_fail_cfgs(n, Ws, kinds=("p", "d", "l"), max_errors=(0, None)):
                 for W, sc in Ws:
                     rot += 1
                     yield {"n": n, "edges": e, "output": list(range(n)), "W": W, "sched": sc,
-                           "fail": {k: KINDS[(KINDS.index(v) + rot) % 3] for k, v in fp.items()}, "max_errors": me}
+                           "fail": {k: KINDS[(KINDS.index(v) + rot) % len(KINDS)] for k, v in fp.items()}, "max_errors": me}
 
 
 def hub_fail_cfgs(Ws):
@@ -58,7 +58,7 @@ def hub_fail_cfgs(Ws):
                 for me in (0, None):
                     rot += 1
                     d = dict(c)
-                    d["fail"] = {str(i): KINDS[(i + rot) % 3] for i in fs}
+                    d["fail"] = {str(i): KINDS[(i + rot) % len(KINDS)] for i in fs}
                     d["max_errors"] = me
                     out.append(d)
     return out
